@@ -320,16 +320,24 @@ func c12CapacityCoversTheSlotRange(r *core.Report) {
 			c := -1
 			for _, fc := range g.FactsAt(nd) {
 				be, ok := core.Unparen(fc.Expr).(*ast.BinaryExpr)
-				if !ok || fc.Tag != nil || core.ObjOf(info, be.X) != slot {
+				if !ok || fc.Tag != nil {
 					continue
 				}
-				if sel, ok := core.Unparen(be.Y).(*ast.SelectorExpr); !ok || sel.Sel.Name != "end" {
+				x, y, op := be.X, be.Y, be.Op
+				if core.ObjOf(info, y) == slot { // `i.end < slot`
+					x, y = y, x
+					op = map[token.Token]token.Token{token.LSS: token.GTR, token.GTR: token.LSS, token.LEQ: token.GEQ, token.GEQ: token.LEQ}[op]
+				}
+				if core.ObjOf(info, x) != slot {
+					continue
+				}
+				if sel, ok := core.Unparen(y).(*ast.SelectorExpr); !ok || sel.Sel.Name != "end" {
 					continue
 				}
 				switch {
-				case be.Op == token.GTR && !fc.Truth, be.Op == token.LEQ && fc.Truth:
+				case op == token.GTR && !fc.Truth, op == token.LEQ && fc.Truth:
 					c = 1
-				case be.Op == token.GEQ && !fc.Truth, be.Op == token.LSS && fc.Truth:
+				case op == token.GEQ && !fc.Truth, op == token.LSS && fc.Truth:
 					c = 0
 				}
 			}
